@@ -69,6 +69,10 @@ def validate_programs(run, files, label, nproc=12, timeout=1500):
 
 def diff_summary(m):
     exp, got = m["expected"], m["got"]
+    if isinstance(exp.get("globals"), list):
+        exp["globals"] = {}
+    if isinstance(got.get("globals"), list):
+        got["globals"] = {}
     out = []
     if exp["st"] != got["st"] or (exp["st"] == "err" and exp["kind"] != got["kind"]):
         out.append("outcome: expected %s %s, got %s %s" % (exp["st"], exp["kind"], got["st"], got["kind"]))
